@@ -60,6 +60,98 @@ func (p *infoTagPayload) EventId() string  { return p.id }
 func (p *infoTagPayload) HmacSalt() []byte { return p.salt }
 func (p *infoTagPayload) HmacInfo() []byte { return p.info }
 
+// nestPayload / infoNestPayload hold an untagged map whose values are structs (by value, by pointer, in slices):
+// their tagged fields are protected with the same wrapper, salt and info as the fields of the payload itself.
+type nestPayload struct {
+	KPayload
+	M map[string]interface{}
+}
+
+type infoNestPayload struct {
+	KPayload
+	M    map[string]interface{}
+	id   string
+	salt []byte
+	info []byte
+}
+
+func (p *infoNestPayload) EventId() string  { return p.id }
+func (p *infoNestPayload) HmacSalt() []byte { return p.salt }
+func (p *infoNestPayload) HmacInfo() []byte { return p.info }
+
+// genNest builds the map and returns the originals by a label that tells where each was put.
+func genNest(r *rt.Rand) (map[string]interface{}, map[string]KPayload) {
+	m, origs := map[string]interface{}{}, map[string]KPayload{}
+	add := func(label string) KPayload {
+		k := genK(r)
+		origs[label] = k
+		return k
+	}
+	if r.Bool() {
+		k := add("p")
+		m["p"] = &k
+	}
+	if r.Bool() {
+		m["s"] = add("s")
+	}
+	if r.Bool() || len(m) == 0 {
+		var l []*KPayload
+		for i, n := 0, r.Range(1, 2); i < n; i++ {
+			k := add(fmt.Sprintf("l%d", i))
+			l = append(l, &k)
+		}
+		m["l"] = l
+	}
+	if r.Intn(3) == 0 {
+		var l []KPayload
+		for i, n := 0, r.Range(1, 2); i < n; i++ {
+			l = append(l, add(fmt.Sprintf("v%d", i)))
+		}
+		m["v"] = l
+	}
+	if r.Intn(3) == 0 {
+		k := add("mp")
+		m["m"] = map[string]interface{}{"p": &k}
+	}
+	return m, origs
+}
+
+// nestGot collects what the forwarded map holds under the same labels ("" and false if a value changed its type).
+func nestGot(m map[string]interface{}) (map[string]KPayload, string) {
+	got := map[string]KPayload{}
+	for key, v := range m {
+		switch x := v.(type) {
+		case *KPayload:
+			if x == nil {
+				return nil, key + " became nil"
+			}
+			got[key] = *x
+		case KPayload:
+			got[key] = x
+		case []*KPayload:
+			for i, e := range x {
+				if e == nil {
+					return nil, fmt.Sprintf("%s[%d] became nil", key, i)
+				}
+				got[fmt.Sprintf("l%d", i)] = *e
+			}
+		case []KPayload:
+			for i, e := range x {
+				got[fmt.Sprintf("v%d", i)] = e
+			}
+		case map[string]interface{}:
+			if p, ok := x["p"].(*KPayload); ok && p != nil {
+				got["mp"] = *p
+			} else {
+				return nil, "the inner map's value changed its type"
+			}
+		default:
+			return nil, fmt.Sprintf("%s has type %T", key, v)
+		}
+	}
+	return got, ""
+}
+
 var attrCtr int
 
 func genAttrs(r *rt.Rand) (TMap, string, string) {
@@ -414,6 +506,12 @@ func TestC16(t *testing.T) {
 				if withAttrs {
 					attrs, attrE, attrH = genAttrs(cr)
 				}
+				withNest := !withAttrs && cr.Intn(3) == 0
+				var nest map[string]interface{}
+				var nestOrig map[string]KPayload
+				if withNest {
+					nest, nestOrig = genNest(cr)
+				}
 				if withInfo {
 					ip := &infoPayload{KPayload: orig, id: fmt.Sprintf("ev-%d-%d", i, cr.Intn(3)), salt: optBytes(cr, "esalt"), info: optBytes(cr, "einfo")}
 					if cr.Intn(12) == 0 {
@@ -424,17 +522,24 @@ func TestC16(t *testing.T) {
 					if withAttrs {
 						payload = &infoTagPayload{KPayload: orig, Attrs: attrs, id: ip.id, salt: ip.salt, info: ip.info}
 					}
+					if withNest {
+						payload = &infoNestPayload{KPayload: orig, M: nest, id: ip.id, salt: ip.salt, info: ip.info}
+					}
 					encKey = cryp.EventKey(cur.key, ip.id)
 					hmacKey = encKey
 					salt, info = effective(ip.salt, cur.salt), effective(ip.info, cur.info)
 					others = append(others, cur.key, cryp.EventKey(cur.key, ip.id+"x"))
-					desc = fmt.Sprintf("event(id=%q salt=%q info=%q attrs=%v)", ip.id, ip.salt, ip.info, withAttrs)
+					desc = fmt.Sprintf("event(id=%q salt=%q info=%q attrs=%v nested=%v)", ip.id, ip.salt, ip.info, withAttrs, withNest)
 				} else {
 					cp := orig
 					payload = &cp
 					if withAttrs {
 						payload = &tagPayload{KPayload: orig, Attrs: attrs}
 						desc = "event(plain, attrs)"
+					}
+					if withNest {
+						payload = &nestPayload{KPayload: orig, M: nest}
+						desc = "event(plain, nested structs in a map)"
 					}
 				}
 				others = append(others, oldKeys...)
@@ -459,6 +564,8 @@ func TestC16(t *testing.T) {
 							gotE = p.KPayload
 						case *infoTagPayload:
 							gotE = p.KPayload
+						case *infoNestPayload:
+							gotE = p.KPayload
 						}
 						k1 := cryp.EventKey(cur.key, "")
 						if why1, why2 := verifyEvent(orig, gotE, k1, k1, salt, info, nil), verifyEvent(orig, gotE, cur.key, cur.key, salt, info, nil); why1 != "" && why2 != "" {
@@ -473,6 +580,7 @@ func TestC16(t *testing.T) {
 				}
 				var got KPayload
 				var gotAttrs TMap
+				var gotNest map[string]interface{}
 				switch p := out.Payload.(type) {
 				case *KPayload:
 					got = *p
@@ -482,9 +590,30 @@ func TestC16(t *testing.T) {
 					got, gotAttrs = p.KPayload, p.Attrs
 				case *infoTagPayload:
 					got, gotAttrs = p.KPayload, p.Attrs
+				case *nestPayload:
+					got, gotNest = p.KPayload, p.M
+				case *infoNestPayload:
+					got, gotNest = p.KPayload, p.M
 				default:
 					run.Violation("history-pattern:type-changed", fmt.Sprintf("output payload type %T", out.Payload), wit(""))
 					continue
+				}
+				if withNest {
+					// structs held by the map (by pointer, by value, in slices, one map further down): same wrapper,
+					// salt and info as the payload's own fields
+					gn, why := nestGot(gotNest)
+					if why != "" || len(gn) != len(nestOrig) {
+						run.Violation("history-pattern:type-changed", fmt.Sprintf("the map of structs changed its shape: %s (%d structs in, %d out)", why, len(nestOrig), len(gn)), wit(""))
+					} else {
+						for label, o := range nestOrig {
+							if why := verifyEvent(o, gn[label], encKey, hmacKey, salt, info, others); why != "" {
+								run.Violation("history-pattern:wrong-key-or-value:nested", fmt.Sprintf("struct %q held by a map of the payload: %s", label, why), wit(why))
+								break
+							}
+							run.Add("values_verified", 7)
+							run.Add("nested_structs_verified", 1)
+						}
+					}
 				}
 				if why := verifyEvent(orig, got, encKey, hmacKey, salt, info, others); why != "" {
 					run.Violation("history-pattern:wrong-key-or-value", why, wit(why))
